@@ -5,3 +5,4 @@ import Sge.Ovm
 import Sge.Subaccount
 import Sge.Reward
 import Sge.Ticket
+import Sge.Params
